@@ -94,6 +94,8 @@ Sec(name) == KV(name, "", "sec", <<>>)
 IntKV(k, n) == KV(k, ToString(n), "int", <<n>>)
 LayOf(lay, name) == lay[CHOOSE i \in 1..Len(lay) : lay[i].name = name]
 RangeKV(k, lay, name) == LET e == LayOf(lay, name) IN KV(k, Rng(lay, name), "range", <<e.lo, e.hi>>)
+\* order in which the per-stream lines of [STREAM] and [POSITION] are written (the keys carry the stream name)
+Ord(v, s) == IF v.revhdr THEN Len(v.streams) + 1 - s ELSE s
 HeaderKV(v, lay) ==
   << Sec("[GLOBAL]"), KV("HTS_VOICE_VERSION", "1.0", "str", <<>>), IntKV("SAMPLING_FREQUENCY", v.rate),
      IntKV("FRAME_PERIOD", v.fperiod), IntKV("NUM_STATES", v.nstate), IntKV("NUM_STREAMS", Len(v.streams)),
@@ -101,19 +103,19 @@ HeaderKV(v, lay) ==
      KV("FULLCONTEXT_FORMAT", "HTS_TTS_JPN", "str", <<>>), KV("FULLCONTEXT_VERSION", "1.0", "str", <<>>),
      KV("GV_OFF_CONTEXT", Join([i \in 1..Len(v.gvoff) |-> Q(v.gvoff[i])], ","), "pats", <<>>), KV("COMMENT", "", "str", <<>>),
      Sec("[STREAM]") >>
-  \o [s \in 1..Len(v.streams) |-> IntKV("VECTOR_LENGTH[" \o v.streams[s].name \o "]", v.streams[s].vlen)]
-  \o [s \in 1..Len(v.streams) |-> KV("IS_MSD[" \o v.streams[s].name \o "]", B(v.streams[s].msd), "bool", <<>>)]
-  \o [s \in 1..Len(v.streams) |-> IntKV("NUM_WINDOWS[" \o v.streams[s].name \o "]", Len(v.streams[s].wins))]
-  \o [s \in 1..Len(v.streams) |-> KV("USE_GV[" \o v.streams[s].name \o "]", B(v.streams[s].usegv), "bool", <<>>)]
-  \o [s \in 1..Len(v.streams) |-> KV("OPTION[" \o v.streams[s].name \o "]", Join(v.streams[s].opts, ","), "opts", <<>>)]
+  \o [ss \in 1..Len(v.streams) |-> LET s == Ord(v, ss) IN IntKV("VECTOR_LENGTH[" \o v.streams[s].name \o "]", v.streams[s].vlen)]
+  \o [ss \in 1..Len(v.streams) |-> LET s == Ord(v, ss) IN KV("IS_MSD[" \o v.streams[s].name \o "]", B(v.streams[s].msd), "bool", <<>>)]
+  \o [ss \in 1..Len(v.streams) |-> LET s == Ord(v, ss) IN IntKV("NUM_WINDOWS[" \o v.streams[s].name \o "]", Len(v.streams[s].wins))]
+  \o [ss \in 1..Len(v.streams) |-> LET s == Ord(v, ss) IN KV("USE_GV[" \o v.streams[s].name \o "]", B(v.streams[s].usegv), "bool", <<>>)]
+  \o [ss \in 1..Len(v.streams) |-> LET s == Ord(v, ss) IN KV("OPTION[" \o v.streams[s].name \o "]", Join(v.streams[s].opts, ","), "opts", <<>>)]
   \o << Sec("[POSITION]"), RangeKV("DURATION_PDF", lay, "DURATION_PDF"), RangeKV("DURATION_TREE", lay, "DURATION_TREE") >>
-  \o [s \in 1..Len(v.streams) |-> LET n == v.streams[s].name IN
+  \o [ss \in 1..Len(v.streams) |-> LET s == Ord(v, ss) IN LET n == v.streams[s].name IN
          KV("STREAM_WIN[" \o n \o "]", Join([w \in 1..Len(v.streams[s].wins) |-> Rng(lay, "WIN:" \o n \o ":" \o ToString(w))], ","),
             "ranges", Flat([w \in 1..Len(v.streams[s].wins) |-> LET e == LayOf(lay, "WIN:" \o n \o ":" \o ToString(w)) IN <<e.lo, e.hi>>]))]
-  \o [s \in 1..Len(v.streams) |-> LET n == "STREAM_PDF[" \o v.streams[s].name \o "]" IN RangeKV(n, lay, n)]
-  \o [s \in 1..Len(v.streams) |-> LET n == "STREAM_TREE[" \o v.streams[s].name \o "]" IN RangeKV(n, lay, n)]
-  \o [i \in 1..Len(GvStreams(v)) |-> LET n == "GV_PDF[" \o v.streams[GvStreams(v)[i]].name \o "]" IN RangeKV(n, lay, n)]
-  \o [i \in 1..Len(GvStreams(v)) |-> LET n == "GV_TREE[" \o v.streams[GvStreams(v)[i]].name \o "]" IN RangeKV(n, lay, n)]
+  \o [ss \in 1..Len(v.streams) |-> LET s == Ord(v, ss) IN LET n == "STREAM_PDF[" \o v.streams[s].name \o "]" IN RangeKV(n, lay, n)]
+  \o [ss \in 1..Len(v.streams) |-> LET s == Ord(v, ss) IN LET n == "STREAM_TREE[" \o v.streams[s].name \o "]" IN RangeKV(n, lay, n)]
+  \o [ii \in 1..Len(GvStreams(v)) |-> LET i == IF v.revhdr THEN Len(GvStreams(v)) + 1 - ii ELSE ii  n == "GV_PDF[" \o v.streams[GvStreams(v)[i]].name \o "]" IN RangeKV(n, lay, n)]
+  \o [ii \in 1..Len(GvStreams(v)) |-> LET i == IF v.revhdr THEN Len(GvStreams(v)) + 1 - ii ELSE ii  n == "GV_TREE[" \o v.streams[GvStreams(v)[i]].name \o "]" IN RangeKV(n, lay, n)]
   \o << Sec("[DATA]") >>
 KVLine(e) == IF e.kind = "sec" THEN e.k ELSE e.k \o ":" \o e.v
 Header(v, lay) == LET kv == HeaderKV(v, lay) IN [i \in 1..Len(kv) |-> KVLine(kv[i])]
